@@ -78,6 +78,12 @@ func putUint(fn *ssa.Function, a *ssa.Alloc) (val ssa.Value, bits int, little bo
 	if bits == 0 {
 		val, bits, little = manualPut(a)
 	}
+	if bits == 0 {
+		// the array is a copy of an array filled elsewhere ( nonce := frameNonce(count): the helper's local array is returned by value )
+		if b := arrayCopySource(a); b != nil && b != a {
+			return putUint(fn, b)
+		}
+	}
 	// the buffer must be exactly as wide as the encoded value: PutUint16 into a 3-byte buffer puts 3 bytes on the wire / into the AAD
 	if bits != 0 {
 		if n, ok := knownLen(a); !ok || n*8 != int64(bits) {
@@ -177,6 +183,16 @@ func counterOnPath(pa core.Path, fn *ssa.Function, field string, aead func(ssa.I
 	nonceOff := map[*ssa.Alloc]int{}
 	pa.Instrs(func(i ssa.Instruction) {
 		if st, ok := i.(*ssa.Store); ok {
+			// a nonce array handed on by value ( nonce := frameNonce(count) ) keeps the counter position it was filled at
+			if dst, isA := st.Addr.(*ssa.Alloc); isA {
+				if ld, isL := st.Val.(*ssa.UnOp); isL && ld.Op == token.MUL {
+					if src, isA2 := ld.X.(*ssa.Alloc); isA2 {
+						if o, known := nonceOff[src]; known {
+							nonceOff[dst] = o
+						}
+					}
+				}
+			}
 			if _, ok := core.FieldAddrOf(st.Addr, tSecure, field); ok {
 				b, isB := st.Val.(*ssa.BinOp)
 				one := false
@@ -428,4 +444,29 @@ func sameLoad(a, b ssa.Value) bool {
 	ua, ok1 := a.(*ssa.UnOp)
 	ub, ok2 := b.(*ssa.UnOp)
 	return ok1 && ok2 && ua.Op == token.MUL && ub.Op == token.MUL && ua.X == ub.X
+}
+
+// arrayCopySource: the array variable a receives its whole content from exactly one other array variable (a by-value copy).
+func arrayCopySource(a *ssa.Alloc) *ssa.Alloc {
+	if _, isArr := a.Type().(*types.Pointer).Elem().Underlying().(*types.Array); !isArr {
+		return nil
+	}
+	var src *ssa.Alloc
+	n := 0
+	for _, r := range *a.Referrers() {
+		st, ok := r.(*ssa.Store)
+		if !ok || st.Addr != ssa.Value(a) {
+			continue
+		}
+		n++
+		if ld, ok := st.Val.(*ssa.UnOp); ok && ld.Op == token.MUL {
+			if b, ok := ld.X.(*ssa.Alloc); ok {
+				src = b
+			}
+		}
+	}
+	if n != 1 {
+		return nil
+	}
+	return src
 }
